@@ -399,7 +399,36 @@ func mutate(r *rng.R, ls []string, donors [][]string) ([]string, string) {
 		}
 		return out, fmt.Sprintf("resize line %d", i+1)
 	case k == 19 || k >= 22: // consistent semantic edits that reach the deeper guards
-		switch r.Intn(4) {
+		switch r.Intn(5) {
+		case 4:
+			// white space other than the blank in a padding column next to the value: strings.TrimSpace removes it,
+			// a parser that only strips blanks keeps it as part of the value
+			sp := rng.Pick(r, []span{{'5', 40, 50, "CompanyIdentification"}, {'5', 40, 50, "CompanyIdentification"}, {'8', 44, 54, "CompanyIdentification"},
+				{'5', 53, 63, "CompanyEntryDescription"}, {'5', 4, 20, "CompanyName"}, {'6', 54, 76, "IndividualName"}, {'6', 39, 54, "IdentificationNumber"},
+				{'6', 12, 29, "DFIAccountNumber"}, {'1', 40, 63, "ImmediateDestinationName"}, {'1', 63, 86, "ImmediateOriginName"}, {'5', 20, 40, "CompanyDiscretionaryData"}})
+			i := pickRec(sp.rec)
+			if i < 0 || len(ls[i]) < sp.hi {
+				return ls, "noop"
+			}
+			for q := 0; q < sp.hi; q++ {
+				if ls[i][q] >= 0x80 {
+					return ls, "noop" // byte columns are not character columns here
+				}
+			}
+			fld := ls[i][sp.lo:sp.hi]
+			t := strings.TrimRight(fld, " ")
+			at := sp.lo + len(t) // first padding column behind the value
+			if len(t) == len(fld) || len(t) == 0 || r.Chance(1, 4) {
+				lead := len(fld) - len(strings.TrimLeft(fld, " "))
+				if lead == 0 || lead == len(fld) {
+					return ls, "noop"
+				}
+				at = sp.lo + lead - 1 // last padding column in front of the value
+			}
+			out := append([]string{}, ls...)
+			ws := rng.Pick(r, []string{"\t", "\u00a0", "\u3000", "\v", "\u2003", "\u0085"})
+			out[i] = ls[i][:at] + ws + ls[i][at+1:]
+			return out, fmt.Sprintf("white space %q in the padding of %s line %d", ws, sp.what, i+1)
 		case 0:
 			if out, ok := zeroAmount(r, ls); ok {
 				return out, "zero one entry amount, totals rebalanced"
